@@ -579,13 +579,28 @@ func C01(p *core.Program, r *core.Report) {
 				if !ok {
 					continue
 				}
+				// the inner map: looked up directly, or a local that merges the looked-up map with
+				// a freshly made one
 				var lk *ssa.Lookup
-				switch x := core.StripConv(mu.Map).(type) {
-				case *ssa.Lookup:
-					lk = x
-				case *ssa.Extract:
-					lk, _ = x.Tuple.(*ssa.Lookup)
+				var findLookup func(v ssa.Value, depth int)
+				findLookup = func(v ssa.Value, depth int) {
+					if depth > 4 || lk != nil {
+						return
+					}
+					switch x := core.StripConv(v).(type) {
+					case *ssa.Lookup:
+						lk = x
+					case *ssa.Extract:
+						if l, ok := x.Tuple.(*ssa.Lookup); ok {
+							lk = l
+						}
+					case *ssa.Phi:
+						for _, e := range x.Edges {
+							findLookup(e, depth+1)
+						}
+					}
 				}
+				findLookup(mu.Map, 0)
 				if lk == nil {
 					continue
 				}
@@ -595,6 +610,10 @@ func C01(p *core.Program, r *core.Report) {
 				nT10++
 				outer, key := c.Of(lk.X), c.Of(lk.Index)
 				exists, _ := core.CutAtoms(p, fn, regexp.MustCompile(q(`in(`+outer+`,`+key+`)`)), true)
+				// ... or the looked-up inner map was found to be non-nil
+				inner := regexp.QuoteMeta(outer + "[" + key + "]")
+				nonNil, _ := core.CutAtoms(p, fn, regexp.MustCompile(`^(`+inner+` == nil|nil == `+inner+`)$`), false)
+				exists = core.Union(exists, nonNil)
 				created := func(x ssa.Instruction) bool {
 					st, ok := x.(*ssa.MapUpdate)
 					if !ok || c.Of(st.Map) != outer || c.Of(st.Key) != key {
